@@ -6,6 +6,7 @@ mod eff;
 mod eng;
 mod pm;
 mod rm;
+mod txt;
 
 use std::io::{BufRead, BufWriter, Write};
 use std::panic::{catch_unwind, AssertUnwindSafe};
@@ -16,6 +17,7 @@ fn run_case(toks: &[&str]) -> String {
         Some("effnew") => eff::run_effnew(toks),
         Some("rm") => rm::run_rm(toks),
         Some("pm") => pm::run_pm(toks),
+        Some("csv") | Some("esc") | Some("rmc") | Some("csvf") | Some("ini") | Some("mdl") | Some("totext") => txt::run_txt(toks),
         Some("eng") => eng::run_eng(toks, false),
         Some("engc") => eng::run_eng(toks, true),
         Some("twin") => eng::run_twin(toks),
